@@ -382,7 +382,7 @@ func runC14(c *Ctx) {
 					c.Check(K("go", key, "blocking "+h.Name+" "+k), op.Node.Pos(), cl.Class != "", "a transient goroutine contains only blocking operations with an escape, buffer, partner or reviewed reason — transient because: "+ent.Reason, "unreviewed blocking operation: "+cl.Reason)
 				}
 				for _, l := range h.Lits {
-					if _, isGo := p.Parent(p.Parent(l.Lit)).(*ast.GoStmt); isGo {
+					if isGo := l.IsSpawned(); isGo {
 						continue // a nested spawn is its own site
 					}
 					visit(l)
@@ -579,13 +579,24 @@ func verifyScoped(c *Ctx, g eng.GoSite, spawned *eng.Func, ent goEntry, key stri
 					}
 				}
 				f.Walk(func(n ast.Node) bool {
-					rg, isR := n.(*ast.RangeStmt)
-					if !isR || spawnOver == nil {
+					var body *ast.BlockStmt
+					var head ast.Node
+					switch lp := n.(type) {
+					case *ast.RangeStmt:
+						body, head = lp.Body, lp.X
+					case *ast.ForStmt:
+						body, head = lp.Body, lp.Cond
+					}
+					st, isSt := n.(ast.Stmt)
+					if body == nil || !isSt || spawnOver == nil {
 						return true
 					}
-					if la := eng.LenArg(info, rg.X); la != nil && eng.IsObj(info, la, spawnOver) {
+					if _, isRange := n.(*ast.RangeStmt); isRange && eng.LenArg(info, n.(*ast.RangeStmt).X) == nil {
+						return true // ranging over the list itself is the spawn loop
+					}
+					if la := countedOver(info, st); la != nil && eng.IsObj(info, la, spawnOver) {
 						nrecv := 0
-						ast.Inspect(rg.Body, func(m ast.Node) bool {
+						ast.Inspect(body, func(m ast.Node) bool {
 							if u, isU := m.(*ast.UnaryExpr); isU && u.Op == token.ARROW && eng.IsObj(info, u.X, ch) {
 								nrecv++
 							}
@@ -593,7 +604,7 @@ func verifyScoped(c *Ctx, g eng.GoSite, spawned *eng.Func, ent goEntry, key stri
 						})
 						// and the counted loop lies on every path to a return
 						if nrecv == 1 {
-							if okp, _ := cf.MustPass(cf.LocOf(g.Node), eng.LocSet(cf.Exits(true)...), eng.LocSet(cf.LocOf(rg.X))); okp {
+							if okp, _ := cf.MustPass(cf.LocOf(g.Node), eng.LocSet(cf.Exits(true)...), eng.LocSet(cf.LocOf(head))); okp {
 								ok = true
 							}
 						}
@@ -808,13 +819,20 @@ func c14CloseShapes(c *Ctx) {
 			return true
 		})
 		f.Walk(func(n ast.Node) bool {
-			if rg, ok := n.(*ast.RangeStmt); ok && closers != nil {
-				x := rg.X
-				if la := eng.LenArg(info, rg.X); la != nil {
-					x = la
+			var body *ast.BlockStmt
+			switch lp := n.(type) {
+			case *ast.RangeStmt:
+				body = lp.Body
+			case *ast.ForStmt:
+				body = lp.Body
+			}
+			if st, ok := n.(ast.Stmt); ok && body != nil && closers != nil {
+				x := countedOver(info, st)
+				if x == nil {
+					return true
 				}
 				receives := false
-				ast.Inspect(rg.Body, func(m ast.Node) bool {
+				ast.Inspect(body, func(m ast.Node) bool {
 					if u, isU := m.(*ast.UnaryExpr); isU && u.Op == token.ARROW {
 						receives = true
 					}
